@@ -172,3 +172,50 @@ def lark_file_parser(kind):
         tr = predicate_from_expression if kind == 'condition' else None
         _cache[key] = HplParser.from_grammar(lark_sources()[g], start=start, transform=tr)
     return _cache[key]
+
+
+def rebuild(node, f):
+    """A copy of an expression / predicate tree made through the API: children first (but() on the parent when a child
+    changed), then f(node) - f returns the node itself or its replacement."""
+    from hplverif import astx
+
+    kw = {}
+    for name, how in astx.SLOTS.get(astx.cname(node), ()):
+        old = getattr(node, name)
+        if how == 'many':
+            new = tuple(rebuild(x, f) for x in old)
+            if any(a is not b for a, b in zip(new, old)):
+                kw[name] = new
+        elif old is not None:
+            new = rebuild(old, f)
+            if new is not old:
+                kw[name] = new
+    if kw:
+        node = node.but(**kw)
+    return f(node)
+
+
+WIDENINGS = {
+    0: ('atan2', lambda e, lit: (lit(1), e)),
+    1: ('max', lambda e, lit: (lit(1), lit(2), e)),
+    2: ('log', lambda e, lit: (e, lit(2))),
+    3: ('min', lambda e, lit: (lit(3), e, lit(1), e)),
+    4: ('gcd', lambda e, lit: (lit(4), lit(6), e)),
+}
+ONE_NUMBER_FUNCTIONS = ('abs', 'sqrt', 'ceil', 'floor', 'sin', 'cos', 'tan', 'asin', 'acos', 'atan', 'deg', 'rad')
+
+
+def widen_calls(a, variant):
+    """Every call of a one-number function becomes a call with several arguments (only the API builds those: the grammar
+    has one-argument calls) that holds the old argument behind literals: abs(e) -> atan2(1, e), max(1, 2, e), ..."""
+    from hpl.ast import HplFunctionCall, HplLiteral
+    from hplverif import astx
+
+    fn, mk = WIDENINGS[variant % len(WIDENINGS)]
+
+    def f(n):
+        if astx.cname(n) == 'HplFunctionCall' and len(n.arguments) == 1 and str.__str__(n.function.name) in ONE_NUMBER_FUNCTIONS:
+            return HplFunctionCall(fn, mk(n.arguments[0], HplLiteral.number))
+        return n
+
+    return rebuild(a, f)
